@@ -365,3 +365,283 @@ Proof.
   destruct (st_op_ok w (fun s => update_entry (env_of (cfg_std 1)) s e sd (Some o) (s_path (gs en sd)) None (Some true) false None) s' e _ _ Ht H1 F1) as (H2 & W2).
   eexists. split; [exact H2|exact W2].
 Qed.
+
+(* ------------------------------------------------------------------ field algebra *)
+Lemma gs_prio0 E0 en sd : gs (prio_entry E0 en 0) sd = gs en sd.
+Proof. unfold prio_entry. destruct (N.eqb (e_prio en) 0); [reflexivity|]. rewrite andb_false_r. destruct en, sd; reflexivity. Qed.
+Lemma ign_prio0 E0 en : e_ign (prio_entry E0 en 0) = e_ign en.
+Proof. unfold prio_entry. destruct (N.eqb (e_prio en) 0); [reflexivity|]. rewrite andb_false_r. reflexivity. Qed.
+Lemma ign_hash_upd en sd h : e_ign (hash_upd en sd h) = e_ign en.
+Proof. unfold hash_upd. destruct h; [destruct (oN_eqb _ _); [reflexivity|apply ign_ss]|reflexivity]. Qed.
+Lemma gs_hash_upd_other en sd h : gs (hash_upd en sd h) (negb sd) = gs en (negb sd).
+Proof. unfold hash_upd. destruct h; [destruct (oN_eqb _ _); [reflexivity|apply gs_ss_other]|reflexivity]. Qed.
+Lemma gs_hash_upd_same en sd d : gs (hash_upd en sd (Some d)) sd = w_hash (gs en sd) (Some d).
+Proof.
+  unfold hash_upd. destruct (oN_eqb (Some d) (s_hash (gs en sd))) eqn:E0; [|apply gs_ss_same].
+  apply oN_eqb_eq in E0. destruct (gs en sd); simpl in *; subst; reflexivity.
+Qed.
+Lemma gs_ss_neq en sd sd0 x : sd0 <> sd -> gs (ss en sd x) sd0 = gs en sd0.
+Proof. intros H. destruct en, sd, sd0; try reflexivity; contradiction. Qed.
+
+Lemma oid_lt_heap g w x xn sd k : Inv g w -> nth_error (ents (w_st w)) x = Some xn -> s_oid (gs xn sd) = Some (ostr_k k) ->
+  (k < length (ProvModel.p_heap (prov_of w sd)))%nat.
+Proof.
+  intros I Hxn Hox. destruct (Nat.le_gt_cases 2 k) as [Hk|Hk].
+  - pose proof (entry_ge2 _ _ _ _ _ _ _ I Hxn Hox Hk) as Hx2.
+    destruct (so_full _ _ _ _ _ _ (eo_side _ _ _ _ _ (i_ents _ _ _ I x xn Hx2 Hxn) sd) _ Hox) as (k1 & ob1 & Hk1 & Hob1 & _).
+    apply ostr_k_inj in Hk1. subst k1. apply nth_error_Some. unfold obj_at in Hob1. congruence.
+  - destruct (sh_root1 _ _ (i_shape _ _ _ I sd)) as (r1 & Hr1 & _). unfold obj_at in Hr1.
+    assert (1 < length (ProvModel.p_heap (prov_of w sd)))%nat by (apply nth_error_Some; congruence). lia.
+Qed.
+
+Lemma freshP_markers x h p ob : freshP (w_spath (w_shash x h) p) ob <-> freshP x ob.
+Proof. unfold freshP. destruct (ProvModel.o_exists ob); reflexivity. Qed.
+
+(* ------------------------------------------------------------------ create_synced *)
+Lemma leaf_two (a n : ProvModel.name) : leaf [a; n] = n. Proof. reflexivity. Qed.
+
+Lemma create_pres g w e en s k ob cs n w3 calls rs :
+  SCtx g w e en -> e_ign en = INone ->
+  s_oid (gs en s) = Some (ostr_k k) -> obj_at w s k = Some ob -> ProvModel.o_exists ob = true ->
+  g_get k (g_of g s) = Some cs -> s_oid (gs en (negb s)) = None ->
+  ProvModel.o_path ob = [root_name s; n] -> name_ok n = true ->
+  s_path (gs en s) = Some (pstr [root_name s; n]) -> tchg (s_chg (gs en s)) = true ->
+  x_tfile (getx w e s) = None ->
+  create_synced (setx (tname_world w e s en (pstr [root_name s; n])) e s (set_tfile (ProvModel.o_data ob))) e s
+                (pstr [root_name (negb s); n]) = ROk (w3, calls, rs) ->
+  rs = Finished /\ exists en3, SCtx g w3 e en3 /\
+    s_oid (gs en3 s) = Some (ostr_k k) /\ s_oid (gs en3 (negb s)) <> None /\ s_hash (gs en3 s) = s_shash (gs en3 s) /\
+    e_ign en3 = INone /\
+    prov_of w3 s = prov_of w s /\
+    (forall x sd0, x <> e -> getx w3 x sd0 = getx w x sd0) /\ (forall sd0, x_lg (getx w3 e sd0) = x_lg (getx w e sd0)).
+Proof.
+  intros [I He Hn Hr] Hign Ho Hob Hl Hg Hot Hpath Hnok Hsp Hc Htf H.
+  set (t := negb s) in *. set (p := [root_name t; n]).
+  pose proof (i_cfg _ _ _ I) as Hcfg. pose proof (i_ents _ _ _ I e en He Hn) as EO.
+  destruct (tname_world_facts w e s en (pstr [root_name s; n]) Htf) as (TA & TB & TC & TD & TF & TG & TH).
+  set (w0 := tname_world w e s en (pstr [root_name s; n])) in *.
+  set (w1 := setx w0 e s (set_tfile (ProvModel.o_data ob))) in *.
+  assert (H1cfg: w_cfg w1 = cfg_std 1) by (unfold w1; rewrite w_cfg_setx; congruence).
+  assert (H1st: w_st w1 = w_st w) by (unfold w1; rewrite w_st_setx; exact TB).
+  assert (H1prov: forall sd0, prov_of w1 sd0 = prov_of w sd0) by (intros; unfold w1; rewrite prov_of_setx; apply TC).
+  unfold create_synced in H.
+  assert (Htd: temp_data w1 e s = ROk (ProvModel.o_data ob)) by (unfold temp_data, w1; rewrite getx_setx_same; reflexivity).
+  rewrite Htd in H. cbn [rbind] in H.
+  assert (Hsp2: spath (pstr [root_name t; n]) = p).
+  { apply spath_pstr. constructor; [apply root_name_ok|]. constructor; [exact Hnok|constructor]. }
+  fold t in H. rewrite Hsp2 in H. rewrite (H1prov t) in H.
+  pose proof (i_pwf _ _ _ I t) as HWt.
+  destruct (ProvModel.create (prov_of w t) p (ProvModel.o_data ob)) as [pv r] eqn:Ecr.
+  destruct r as [i|er]; [|destruct er; try discriminate; unfold gate, lvl in H; rewrite H1cfg in H; discriminate].
+  destruct (create_inv _ _ _ _ _ HWt Ecr) as (Hi & Hheap & Hlog & Hcur & Hpcfg & HWv).
+  set (k' := length (ProvModel.p_heap (prov_of w t))) in *.
+  set (o' := new_obj (prov_of w t) p ProvModel.KFile (ProvModel.o_data ob)) in *.
+  set (w2 := with_prov w1 t pv) in *.
+  assert (H2cfg: w_cfg w2 = cfg_std 1) by (unfold w2, with_prov; destruct t; exact H1cfg).
+  assert (H2st: w_st w2 = w_st w) by (unfold w2, with_prov; destruct t; exact H1st).
+  assert (H2tape: tape (w_st w2) = []) by (rewrite H2st; apply (i_tape _ _ _ I)).
+  assert (H2n: nth_error (ents (w_st w2)) e = Some en) by (rewrite H2st; exact Hn).
+  unfold get_e, lift, get_ent in H. rewrite H2n in H. cbn [rbind] in H.
+  assert (Hid: ProvModel.i_data i = Some (ProvModel.o_data ob)) by (rewrite Hi; reflexivity).
+  assert (Hip: ProvModel.i_path i = p) by (rewrite Hi; reflexivity).
+  assert (Hio: ProvModel.i_oid i = kid_of k') by (rewrite Hi; reflexivity).
+  rewrite Hid, Hip, Hio in H. rewrite kstr_kid in H.
+  (* the four marker writes *)
+  destruct (plain_w w2 H2tape e t (fun y => w_shash y (Some (ProvModel.o_data ob))) en H2n) as (wa & Ha & Wa); [intros; split; reflexivity|].
+  rewrite Ha in H. cbn [rbind] in H. set (ena := ss en t (w_shash (gs en t) (Some (ProvModel.o_data ob)))) in *.
+  pose proof (weff_nth _ _ _ _ _ _ Wa H2n) as Hna. assert (Hta: tape (w_st wa) = []) by (destruct Wa as (_ & _ & _ & _ & _ & T); exact T).
+  destruct (plain_w wa Hta e t (fun y => w_spath y (Some (pstr p))) ena Hna) as (wb & Hb & Wb); [intros; split; reflexivity|].
+  rewrite Hb in H. cbn [rbind] in H. set (enb := ss ena t (w_spath (gs ena t) (Some (pstr p)))) in *.
+  pose proof (weff_nth _ _ _ _ _ _ Wb Hna) as Hnb. assert (Htb: tape (w_st wb) = []) by (destruct Wb as (_ & _ & _ & _ & _ & T); exact T).
+  destruct (plain_w wb Htb e s (fun y => w_shash y (s_hash (gs en s))) enb Hnb) as (wc & Hcc & Wc); [intros; split; reflexivity|].
+  rewrite Hcc in H. cbn [rbind] in H. set (enc := ss enb s (w_shash (gs enb s) (s_hash (gs en s)))) in *.
+  pose proof (weff_nth _ _ _ _ _ _ Wc Hnb) as Hnc. assert (Htc: tape (w_st wc) = []) by (destruct Wc as (_ & _ & _ & _ & _ & T); exact T).
+  destruct (plain_w wc Htc e s (fun y => w_spath y (s_path (gs en s))) enc Hnc) as (wd & Hd & Wd); [intros; split; reflexivity|].
+  rewrite Hd in H. cbn [rbind] in H. set (end_ := ss enc s (w_spath (gs enc s) (s_path (gs en s)))) in *.
+  pose proof (weff_nth _ _ _ _ _ _ Wd Hnc) as Hnd. assert (Htd': tape (w_st wd) = []) by (destruct Wd as (_ & _ & _ & _ & _ & T); exact T).
+  pose proof (weff_trans _ _ _ _ _ _ _ _ (weff_trans _ _ _ _ _ _ _ _ (weff_trans _ _ _ _ _ _ _ _ Wa Wb) Wc) Wd) as Wad. cbn [mcomp] in Wad.
+  assert (Hdcfg: w_cfg wd = cfg_std 1) by (destruct Wad as (A & _); congruence).
+  assert (HdI: IdxJ (w_st wd)) by (destruct Wad as (_ & _ & _ & _ & (_ & _ & _ & _ & J) & _); apply J; rewrite H2st; apply (i_idx _ _ _ I)).
+  (* side t of the entry is still empty *)
+  assert (Hst: t <> s) by (unfold t; destruct s; discriminate).
+  assert (Hgt: gs end_ t = w_spath (w_shash (gs en t) (Some (ProvModel.o_data ob))) (Some (pstr p))).
+  { unfold end_, enc, enb, ena. unfold t in *. destruct s; simpl; reflexivity. }
+  assert (Hgs: gs end_ s = w_spath (w_shash (gs en s) (s_hash (gs en s))) (s_path (gs en s))).
+  { unfold end_, enc, enb, ena. unfold t in *. destruct s; simpl; reflexivity. }
+  destruct (so_empty _ _ _ _ _ _ (eo_side _ _ _ _ _ EO t) Hot) as (Etc & Etp & Eth & Etsp & Etsh).
+  assert (Hfresh: al_get (ostr_k k') (oids (w_st wd) t) = None).
+  { destruct (al_get (ostr_k k') (oids (w_st wd) t)) as [x|] eqn:Ea; [|reflexivity]. exfalso.
+    destruct (idx_lookup _ _ _ _ HdI Ea) as (xn & Hxn & Hox).
+    assert (Hx': exists xn0, nth_error (ents (w_st w)) x = Some xn0 /\ s_oid (gs xn0 t) = Some (ostr_k k')).
+    { destruct Wad as (_ & _ & _ & _ & (SA & _) & _). rewrite SA, H2st in Hxn. destruct (Nat.eq_dec x e) as [Hxe|Hxe].
+      - subst x. rewrite (nth_list_upd_eq _ _ _ _ Hn) in Hxn. injection Hxn as <-. rewrite Hgt in Hox. cbn [w_spath w_shash s_oid] in Hox. rewrite Hot in Hox. discriminate.
+      - rewrite nth_list_upd_neq in Hxn by congruence. eauto. }
+    destruct Hx' as (xn0 & Hxn0 & Hox0).
+    assert (Hx2: (2 <= x)%nat) by (apply (entry_ge2 _ _ _ _ _ _ _ I Hxn0 Hox0); unfold k'; destruct (sh_root1 _ _ (i_shape _ _ _ I t)) as (r1 & Hr1 & _); unfold obj_at in Hr1;
+                                   assert (1 < length (ProvModel.p_heap (prov_of w t)))%nat by (apply nth_error_Some; congruence); lia).
+    destruct (so_full _ _ _ _ _ _ (eo_side _ _ _ _ _ (i_ents _ _ _ I x xn0 Hx2 Hxn0) t) _ Hox0) as (k1 & ob1 & Hk1 & Hob1 & _).
+    apply ostr_k_inj in Hk1. subst k1. unfold obj_at in Hob1. assert (Hlt: (k' < length (ProvModel.p_heap (prov_of w t)))%nat) by (apply nth_error_Some; congruence). unfold k' in Hlt. lia. }
+  assert (Hnpp: nps (mk_conv true) (pstr p) = pstr p).
+  { apply nps_pstr. constructor; [apply root_name_ok|]. constructor; [exact Hnok|constructor]. }
+  destruct (upd_entry_create_w wd e t (ostr_k k') (pstr p) (Some (ProvModel.o_data ob)) end_ Hdcfg Htd' HdI Hnd)
+    as (w4 & H4 & W4).
+  { rewrite Hgt. cbn [w_spath w_shash s_oid]. exact Hot. }
+  { rewrite Hgt. cbn [w_spath w_shash s_path]. exact Etp. }
+  { exact Hfresh. }
+  { apply tstr_ostr. }
+  { apply tstr_pstr. }
+  { exact Hnpp. }
+  { rewrite Hgt. cbn [w_spath w_shash s_otype]. rewrite (ent_file (real_evl w) g w e en EO t). discriminate. }
+  rewrite H4 in H. cbn [rbind] in H. injection H as <- <- <-. split; [reflexivity|].
+  (* the final entry *)
+  match type of W4 with weff _ _ _ ?EN _ => set (en3 := EN) in * end.
+  pose proof (weff_trans _ _ _ _ _ _ _ _ Wad W4) as W24.
+  exists en3.
+  set (data := ProvModel.o_data ob) in *.
+  assert (Hex_t: s_ex (gs en t) = ExUnknown).
+  { apply (so_empty_ex _ _ _ _ _ _ (eo_side _ _ _ _ _ EO t) Hot). rewrite Hign. reflexivity. }
+  assert (Hgt0: gs en t = mkSide File None None None None None ExUnknown (s_chg (gs en t)) false).
+  { pose proof (ent_file (real_evl w) g w e en EO t) as X1. pose proof (ent_force (real_evl w) g w e en EO t) as X2.
+    destruct (gs en t); simpl in *. subst. reflexivity. }
+  assert (Hf_t: gs en3 t = mkSide File (Some (ostr_k k')) (Some (pstr p)) (Some data) (Some (pstr p)) (Some data) ExExists (s_chg (gs en t)) false).
+  { unfold en3. rewrite gs_ss_same, gs_hash_upd_same, !gs_prio0, !gs_ss_same, Hgt, Hgt0. reflexivity. }
+  assert (Hf_s: gs en3 s = w_spath (w_shash (gs en s) (s_hash (gs en s))) (s_path (gs en s))).
+  { rewrite <- Hgs. unfold en3. assert (Hs': s = negb t) by (unfold t; destruct s; reflexivity).
+    rewrite Hs' at 1. rewrite gs_ss_other, gs_hash_upd_other, gs_prio0, !gs_ss_other, <- Hs'. reflexivity. }
+  assert (Hf_i: e_ign en3 = INone).
+  { unfold en3. rewrite ign_ss, ign_hash_upd, ign_prio0, !ign_ss. unfold end_, enc, enb, ena. rewrite !ign_ss. exact Hign. }
+  assert (H4cfg: w_cfg w4 = w_cfg w) by (destruct W24 as (A & _); rewrite A, H2cfg; symmetry; exact Hcfg).
+  assert (H4ps: prov_of w4 s = prov_of w s).
+  { rewrite (weff_prov _ _ _ _ _ s W24). assert (X: prov_of w2 s = prov_of w1 s) by (unfold w2, with_prov, t; destruct s; reflexivity).
+    rewrite X. apply H1prov. }
+  assert (H4pt: prov_of w4 t = pv).
+  { rewrite (weff_prov _ _ _ _ _ t W24). unfold w2, with_prov. destruct t; reflexivity. }
+  destruct W24 as (_ & _ & _ & W4x & (SA & SB & SC & SD & SJ) & WT). rewrite H2st in SA, SB, SC, SD, SJ.
+  assert (H4gx: forall x sd0, getx w4 x sd0 = getx w1 x sd0).
+  { intros. unfold getx. rewrite W4x. unfold w2, with_prov. destruct t; reflexivity. }
+  assert (Hgx_o: forall x sd0, x <> e -> getx w4 x sd0 = getx w x sd0).
+  { intros x sd0 Hne. rewrite H4gx. unfold w1. rewrite getx_setx_other by exact Hne. apply TD. exact Hne. }
+  assert (Hlg_e: forall sd0, x_lg (getx w4 e sd0) = x_lg (getx w e sd0)).
+  { intros sd0. rewrite H4gx. unfold w1. destruct (Bool.bool_dec sd0 s) as [Heq|Hne].
+    - subst sd0. rewrite getx_setx_same. simpl. exact TG.
+    - assert (sd0 = negb s) by (destruct sd0, s; try reflexivity; contradiction). subst sd0. rewrite getx_setx_other_side, TF. reflexivity. }
+  assert (Hk'2: (2 <= k')%nat).
+  { destruct (sh_root1 _ _ (i_shape _ _ _ I t)) as (r1 & Hr1 & _). unfold obj_at in Hr1.
+    assert (1 < length (ProvModel.p_heap (prov_of w t)))%nat by (apply nth_error_Some; congruence). unfold k'. lia. }
+  assert (Hobt: obj_at w4 t k' = Some o').
+  { unfold obj_at. rewrite H4pt, Hheap. unfold k'. rewrite nth_error_app2, Nat.sub_diag by lia. reflexivity. }
+  assert (Hobt_o: forall k0, k0 <> k' -> obj_at w4 t k0 = obj_at w t k0).
+  { intros k0 Hne. unfold obj_at. rewrite H4pt, Hheap. destruct (Nat.lt_ge_cases k0 k') as [Hlt|Hge].
+    - rewrite nth_error_app1 by exact Hlt. reflexivity.
+    - assert (Hn1: nth_error (ProvModel.p_heap (prov_of w t) ++ [o']) k0 = None) by (apply nth_error_None; rewrite app_length; simpl; fold k'; lia).
+      assert (Hn2: nth_error (ProvModel.p_heap (prov_of w t)) k0 = None) by (apply nth_error_None; fold k'; lia). congruence. }
+  assert (Hobs: forall k0, obj_at w4 s k0 = obj_at w s k0) by (intros; unfold obj_at; rewrite H4ps; reflexivity).
+  assert (Hgk': g_get k' (g_of g t) = None).
+  { destruct (g_get k' (g_of g t)) as [cs'|] eqn:Eg; [|reflexivity]. exfalso.
+    destruct (i_ghost _ _ _ I t k' cs' Eg) as (_ & ob2 & r2 & Hob2 & _). unfold obj_at in Hob2.
+    assert (k' < length (ProvModel.p_heap (prov_of w t)))%nat by (apply nth_error_Some; congruence). unfold k' in *. lia. }
+  assert (Hen4: nth_error (ents (w_st w4)) e = Some en3) by (rewrite SA; eapply nth_list_upd_eq; eauto).
+  assert (Hpdt: pd (real_evl w4) t k' = true).
+  { unfold pd, real_evl. rewrite H4pt. rewrite (events_from_app _ _ _ Hcur Hlog (pw_cursor _ HWt)), existsb_app. cbn [existsb].
+    unfold ev_for at 2. cbn [create_ev snapshot ProvModel.e_oid]. unfold o' at 1. cbn [new_obj ProvModel.o_oid]. fold k'. rewrite key_eqb_refl, orb_true_r. reflexivity. }
+  assert (Hpds: forall k0, pd (real_evl w4) s k0 = pd (real_evl w) s k0) by (intros; unfold pd, real_evl; rewrite H4ps; reflexivity).
+  destruct (so_full _ _ _ _ _ _ (eo_side _ _ _ _ _ EO s) _ Ho) as (k1 & ob1 & Hk1 & Hob1 & Hk2 & FO).
+  apply ostr_k_inj in Hk1. subst k1. assert (ob1 = ob) by congruence. subst ob1.
+  destruct FO as [f1 f2 f3 f4 f5 f6 f7 f8 f10 f9].
+  assert (Hndisc: is_discarded (e_ign en) = false) by (rewrite Hign; reflexivity).
+  destruct (f8 Hndisc cs Hg) as (P1 & P2 & P3 & P4 & P5).
+  assert (Hhash: s_hash (gs en s) <> None) by (apply P4; rewrite Hsp; discriminate).
+  assert (EO3: EntOk (real_evl w4) g w4 e en3).
+  { constructor.
+    - left. exact Hf_i.
+    - destruct s; [right; change (e_r en3) with (gs en3 true)|left; change (e_l en3) with (gs en3 false)]; rewrite Hf_s; cbn [w_spath w_shash s_oid]; rewrite Ho; discriminate.
+    - intros sd0. destruct (Bool.bool_dec sd0 s) as [Heq|Hne].
+      + subst sd0. constructor; rewrite Hf_s; cbn [w_spath w_shash s_otype s_force s_oid s_chg s_path s_hash s_spath s_shash s_ex].
+        * apply (ent_file (real_evl w) g w e en EO s).
+        * apply (ent_force (real_evl w) g w e en EO s).
+        * rewrite Ho. discriminate.
+        * rewrite Ho. discriminate.
+        * intros o0 Ho0. rewrite Ho in Ho0. injection Ho0 as <-. exists k, ob. split; [reflexivity|]. split; [rewrite Hobs; exact Hob|]. split; [exact Hk2|].
+          assert (Hfl: flagP (real_evl w4) en3 s k) by (left; rewrite Hf_s; cbn [w_spath w_shash s_chg]; exact Hc).
+          constructor; rewrite ?Hf_s, ?Hf_i; fold t; rewrite ?Hf_t; cbn [w_spath w_shash s_ex s_path s_spath s_hash s_shash s_oid s_chg].
+          -- exact f1.
+          -- destruct (Hr s k ob Ho Hob) as [X|X]; [left; rewrite Hpds; exact X|right; right; exact X].
+          -- exact f3.
+          -- right. rewrite Hsp, Hpath. reflexivity.
+          -- intros X; discriminate.
+          -- intros _ X; discriminate.
+          -- intros; left; exact Hfl.
+          -- intros _ cs0 Hcs0. assert (cs0 = cs) by congruence. subst cs0.
+             split; [exact P1|]. split; [exact P1|]. split; [exact P3|]. split; [exact P4|].
+             intros _. split; [rewrite Hsp; discriminate|]. split; [exact Hhash|]. split; [left; reflexivity|].
+             intros k0 Hk0. injection Hk0 as Hk0. apply Nnat.Nat2N.inj in Hk0. subst k0. exact Hgk'.
+          -- intros _ cs0 Hcs0. split; [intros X; discriminate|intros _; rewrite Hsp; discriminate].
+          -- intros _ X. congruence.
+      + assert (sd0 = t) by (unfold t; destruct sd0, s; try reflexivity; contradiction). subst sd0.
+        constructor; rewrite Hf_t; cbn [s_otype s_force s_oid s_chg s_path s_hash s_spath s_shash s_ex]; try reflexivity; try discriminate.
+        intros o0 Ho0. injection Ho0 as <-. exists k', o'. split; [reflexivity|]. split; [exact Hobt|]. split; [exact Hk'2|].
+        assert (Hs': negb t = s) by (unfold t; destruct s; reflexivity).
+        constructor; rewrite ?Hf_t, ?Hf_i, ?Hs', ?Hf_s; cbn [w_spath w_shash s_ex s_path s_spath s_hash s_shash s_oid s_chg].
+        * intros X; discriminate.
+        * left. exact Hpdt.
+        * right. reflexivity.
+        * right. reflexivity.
+        * intros X; discriminate.
+        * rewrite Ho. intros _ X; discriminate.
+        * intros; left; right; exact Hpdt.
+        * intros _ cs0 Hcs0. congruence.
+        * intros _ cs0 Hcs0. congruence.
+        * intros _ _. repeat (split; [reflexivity|]). exists k, ob. split; [exact Ho|]. split; [rewrite Hobs; exact Hob|].
+          split; [rewrite Hpath; reflexivity|congruence]. }
+  split.
+  { constructor; [|exact He|exact Hen4|].
+    - apply (inv_prov_step g w w4 e en3 t k' o' (create_ev o') I He H4cfg).
+      + assert (Hs': negb t = s) by (unfold t; destruct s; reflexivity). rewrite Hs'. exact H4ps.
+      + rewrite H4pt. exact HWv.
+      + rewrite H4pt. exact Hcur.
+      + rewrite H4pt. exact Hlog.
+      + reflexivity.
+      + exact Hk'2.
+      + exact Hobt.
+      + reflexivity.
+      + intros X; discriminate.
+      + reflexivity.
+      + exists n. split; [reflexivity|exact Hnok].
+      + exact Hobt_o.
+      + intros ob2 Hob2. exfalso. unfold obj_at in Hob2. assert (k' < length (ProvModel.p_heap (prov_of w t)))%nat by (apply nth_error_Some; congruence). unfold k' in *. lia.
+      + rewrite H4pt, Hheap, app_length. simpl. fold k'. lia.
+      + intros x xn Hne Hxn Hox. pose proof (oid_lt_heap g w x xn t k' I Hxn Hox). unfold k' in *. lia.
+      + intros cs0 Hcs0. congruence.
+      + exact Hen4.
+      + rewrite SA. apply length_list_upd.
+      + intros x xn Hne Hxn. exists xn. split; [rewrite SA, nth_list_upd_neq by congruence; exact Hxn|apply same_but_prio_refl].
+      + intros x Hne. rewrite SB. cbn [mcomp]. destruct (tchg (s_chg (gs end_ t)) || tchg (s_chg (gs end_ (negb t))))%bool; [|reflexivity].
+        destruct (Nat.eqb_spec x e); [contradiction|reflexivity].
+      + intros _. rewrite SB. cbn [mcomp].
+        assert (Hcc2: (tchg (s_chg (gs end_ t)) || tchg (s_chg (gs end_ (negb t))))%bool = true).
+        { assert (Hs': negb t = s) by (unfold t; destruct s; reflexivity). rewrite Hs', Hgs. cbn [w_spath w_shash s_chg]. rewrite Hc. apply orb_true_r. }
+        rewrite Hcc2, Nat.eqb_refl. reflexivity.
+      + exact SC.
+      + rewrite SD. pose proof (i_clk _ _ _ I). lia.
+      + destruct (i_clke _ _ _ I e en Hn) as (Hmx & _). unfold maxchg, chgv in *.
+        assert (Xs: s_chg (gs en3 s) = s_chg (gs en s)) by (rewrite Hf_s; reflexivity).
+        assert (Xt: s_chg (gs en3 t) = s_chg (gs en t)) by (rewrite Hf_t; reflexivity).
+        unfold t in *. destruct s; simpl in *; rewrite Xs, Xt; lia.
+      + intros sd0. rewrite Hlg_e. destruct (i_clke _ _ _ I e en Hn) as (_ & Hlgs). specialize (Hlgs sd0). lia.
+      + exact WT.
+      + apply SJ. apply (i_idx _ _ _ I).
+      + exact Hgx_o.
+      + intros sd0 o0 (en0 & Hen0 & Ho0). assert (en0 = en) by congruence. subst en0.
+        destruct (Bool.bool_dec sd0 s) as [Heq|Hne]; [subst sd0; rewrite Hf_s; exact Ho0|].
+        assert (sd0 = t) by (unfold t; destruct sd0, s; try reflexivity; contradiction). subst sd0. congruence.
+      + rewrite Hf_t. reflexivity.
+      + exact EO3.
+    - intros sd0 k0 ob0 Ho0 Hob0. destruct (Bool.bool_dec sd0 s) as [Heq|Hne].
+      + subst sd0. rewrite Hf_s in Ho0. cbn [w_spath w_shash s_oid] in Ho0. rewrite Hobs in Hob0.
+        rewrite Hpds, Hf_s. destruct (Hr s k0 ob0 Ho0 Hob0) as [X|X]; [left; exact X|right; apply freshP_markers; exact X].
+      + assert (sd0 = t) by (unfold t; destruct sd0, s; try reflexivity; contradiction). subst sd0.
+        rewrite Hf_t in Ho0. cbn [s_oid] in Ho0. injection Ho0 as Ho0. apply Nnat.Nat2N.inj in Ho0. subst k0. left. exact Hpdt. }
+  change (negb s) with t. rewrite Hf_s, Hf_t. cbn [w_spath w_shash s_oid s_hash s_shash].
+  split; [exact Ho|]. split; [discriminate|]. split; [reflexivity|]. split; [exact Hf_i|].
+  split; [exact H4ps|]. split; [exact Hgx_o|exact Hlg_e].
+Qed.
